@@ -358,11 +358,50 @@ fn id_alphabet(rng: &mut Rng, n: usize) -> Vec<u64> {
     v
 }
 
+/// steered histories: reader-backed tiles that share one stored content (runs and deduplicated pairs),
+/// edited in between, then saved and reopened -- the interleavings of in-memory and backed tiles
+fn steered_histories(rng: &mut Rng) -> Vec<Vec<Op>> {
+    let mut hs = Vec::new();
+    let x = vec![5u8; 9];
+    let y = vec![6u8; 9];
+    let z = rng.bytes(30);
+    for variant in 0..8u8 {
+        for api in [0u8, 1] {
+            let base: Vec<(u64, Vec<u8>)> = vec![(1, x.clone()), (2, x.clone()), (3, x.clone()), (10, y.clone()), (20, y.clone()), (21, z.clone()), (30, x.clone())];
+            let mut ops = vec![Op::New { tt: 1, tc: 1, api }, Op::Set(Settings::random(rng, 1 + (variant % 4))), Op::Bulk(base.clone()), Op::Save, Op::Reopen { api }];
+            match variant {
+                0 => ops.push(Op::Add { id: 2, c: z.clone() }),                       // replace the middle of a backed run
+                1 => ops.push(Op::Add { id: 15, c: z.clone() }),                      // new tile between a deduplicated pair
+                2 => ops.extend([Op::Remove { id: 2 }, Op::Add { id: 2, c: x.clone() }]), // same content back in memory
+                3 => ops.extend([Op::Add { id: 0, c: y.clone() }, Op::Add { id: 11, c: y.clone() }]), // in-memory twins of backed content
+                4 => ops.extend([Op::Get { id: 1 }, Op::Get { id: 2 }, Op::Remove { id: 1 }]),  // lookups, then drop one of a run
+                5 => ops.extend([Op::Add { id: 3, c: x.clone() }, Op::Add { id: 3, c: x.clone() }]), // re-add identical bytes twice
+                6 => ops.extend([Op::Get { id: 10 }, Op::Add { id: 40, c: y.clone() }, Op::Remove { id: 40 }]),
+                _ => ops.extend([Op::Add { id: 4, c: x.clone() }, Op::Remove { id: 3 }, Op::Add { id: 25, c: z.clone() }]),
+            }
+            ops.extend([Op::Count, Op::List]);
+            for id in [0u64, 1, 2, 3, 4, 10, 11, 15, 20, 21, 25, 30, 40] {
+                ops.push(Op::Get { id });
+            }
+            ops.extend([Op::Save, Op::Reopen { api: 1 - api }, Op::Count, Op::List]);
+            for id in [0u64, 1, 2, 3, 4, 10, 11, 15, 20, 21, 25, 30, 40] {
+                ops.push(Op::Get { id });
+            }
+            ops.extend([Op::Save, Op::Reset]);
+            hs.push(ops);
+        }
+    }
+    hs
+}
+
 /// C04 / C10 (retention) / C19 (empty add): long random histories over small alphabets
 pub fn drive_history(seed: u64, tier: &str, out: &mut Out) {
     let mut rng = Rng::new(seed ^ 0x5354);
     let (segments, ops_per) = if tier == "thorough" { (40, 3000) } else { (14, 700) };
     let mut em = Emitter::new();
+    for ops in steered_histories(&mut rng) {
+        em.emit(&exec(&ops, true), out);
+    }
     for s in 0..segments {
         let na = 8 + rng.below(12) as usize;
         let ids = id_alphabet(&mut rng, na);
@@ -550,6 +589,16 @@ pub fn drive_bulk(seed: u64, tier: &str, out: &mut Out) {
             let mut ops = vec![Op::New { tt: set.tt, tc: set.tc, api }, Op::Set(set), Op::Bulk(tiles.clone()), Op::Count];
             if !big {
                 ops.push(Op::List);
+                // detours that leave the logical content unchanged: identical re-add, replace and restore
+                for _ in 0..tiles.len().min(6) {
+                    let (id, c) = rng.pick(&tiles).clone();
+                    if rng.chance(1, 2) {
+                        ops.push(Op::Add { id, c });
+                    } else {
+                        ops.push(Op::Add { id, c: vec![0xEE, 0xEE] });
+                        ops.push(Op::Add { id, c });
+                    }
+                }
             }
             ops.push(Op::Save);
             // reopen with the same API so that the rewrite below is comparable byte for byte (C16)
@@ -734,6 +783,10 @@ fn history_variants(rng: &mut Rng, tiles: &[(u64, Vec<u8>)], set: &Settings, var
                 ops.push(Op::Remove { id: *id });
             }
             ops.push(Op::Add { id: *id, c: c.clone() });
+            if v >= 1 && rng.chance(1, 6) {
+                // adding the identical bytes once more changes nothing
+                ops.push(Op::Add { id: *id, c: c.clone() });
+            }
             if v % 4 == 3 && k == mid {
                 // save + reopen in the middle: first half becomes reader-backed
                 ops.push(Op::Set(set.clone()));
